@@ -329,8 +329,12 @@ def saw : P String := do
     let v := match model with
       | some ⟨mv, mw⟩ =>
         let v := v.diffIf (!(closeQ (1/1000000000) mv value)) s!"{comp} value model={ratStr mv} impl={ratStr value}"
+        -- `if (cf < minCF)` between two stored points whose gains agree to 1e-9 is decided by rounding: not compared
+        let cfs := (List.range i.N).map (fun j => (sawStep i.point cv {} j (i.pts.getD j []) (i.vals.getD j 0)).minCF)
+        let best := cfs.foldl minQ 0
+        let nearTie := decide (1 < (cfs.filter (fun c => decide (c < best + tiny M))).length) && decide (best < 0)
         match mw with
-        | some mw => v.diffIf (!(closeVec mw w)) s!"{comp} weights model={showVec mw} impl={showVec w}"
+        | some mw => v.diffIf (!nearTie && !(closeVec mw w)) s!"{comp} weights model={showVec mw} impl={showVec w}"
         | none => v
       | none => v.diffIf true s!"{comp} model predicts an out-of-range read, implementation returned"
     let v := clausesCommon comp i cv value w v
